@@ -302,7 +302,9 @@ func (p LinearPacer) Pace(elapsed time.Duration, hits uint64) (time.Duration, bo
 	}
 
 	rate := p.Rate(elapsed)
-	interval := math.Round(1e9 / rate)
+	// Not rounded to whole nanoseconds: that made the pacer run ahead of its
+	// schedule at rates whose interval is not a whole number of nanoseconds.
+	interval := 1e9 / rate
 
 	if n := uint64(interval); n != 0 && math.MaxInt64/n < hits {
 		// We would overflow wait if we continued, so stop the attack.
@@ -314,7 +316,7 @@ func (p LinearPacer) Pace(elapsed time.Duration, hits uint64) (time.Duration, bo
 		// We would overflow wait if we continued, so stop the attack.
 		return 0, true
 	}
-	wait := time.Duration(interval * delta)
+	wait := time.Duration(math.Ceil(interval * delta))
 
 	return wait, false
 }
